@@ -139,7 +139,14 @@ PROPS.update({
     "C05": {"level": "exploration", "rule": WORLD_RULE, "suites": [_world("C05")], "min_counters": {"queries_seen": 500},
             "expected_probes": ["probe_cache_reset_consumed", "probe_error_pdu_consumed_code_2", "probe_expired_at_open", "walk_fail_sess-cr", "walk_fail_sess-eod"],
             "assumptions": ["the session oracle is updated only from bytes on the wire, rtr_sync results and simulated time"]},
-    "C14": {"level": "exploration", "rule": WORLD_RULE, "suites": [_world("C14")], "min_counters": {"client_pdus": 500, "report_audits": 50},
+    "C14": {"level": "exploration", "rule": WORLD_RULE + " C14 also replays each plan of a second suite with two different fill patterns for fresh heap blocks "
+            "and for every task's stack (0xA5 / 0x5A): the bytes the client puts on the wire must be identical (no byte sent stems from uninitialised memory).",
+            "suites": [_world("C14"),
+                       {"name": "world-C14-fill", "kind": "metamorphic", "scn": "world", "variant": "asan", "opts": {"focus": "C14", "single": 1},
+                        "variants": [dict(_MM, **{"fill": 0xA5}), dict(_MM, **{"fill": 0x5A})],
+                        "equal_fields": ["sent"], "cls": "uninitialised-bytes-sent",
+                        "runs_quick": 300, "time_quick": 25, "runs_thorough": 30000, "time_thorough": 400}],
+            "min_counters": {"client_pdus": 500, "report_audits": 50, "metamorphic_groups": 50},
             "expected_probes": ["probe_report_framing", "probe_report_version", "probe_report_dup", "probe_report_unk", "probe_report_flags",
                                 "probe_report_sess-eod", "probe_report_unexpected", "probe_report_unktype"],
             "assumptions": ["offending PDU = first PDU of the stream a correct client must refuse (family order for payload errors)"]},
